@@ -194,7 +194,7 @@ def generate(ctx):
         K = int(rng.choice([3, 5])) if z > 1 else int(rng.integers(1, 4))      # level counts not divisible by z
         base = [None, 1, 2][i % 3] if x * y > 1 or z > 1 else 4
         ctx.count('grid mesh=%dx%dx%d' % (z, x, y))
-        extra = dict(ranks=[['2-D'], ['surface']][i % 2]) if quick else {}
+        extra = dict(ranks=[['2-D'], ['surface']][i % 2]) if (quick or i % 3) else {}
         yield 'grid', dict(dict(mesh=[z, x, y], L=L, K=K, base=base, seed=int(rng.integers(0, 2 ** 31))), **gopts[i % len(gopts)], **extra)
     # resolution / layout thresholds: wide and tall grids, longitude_nodes = 2 (wavenumbers - 1) and 2 (wavenumbers + 1),
     # total_wavenumbers > longitude_wavenumbers + 1, base multiples 4 and 8, non-unit radius
@@ -608,6 +608,7 @@ def _structured(kind, seed, shape, mask):
         y = np.zeros_like(x)
         y[..., -1, -1] = x[..., -1, -1] + 10.0     # sin part of m = M-1, l = L-1 (masked in: M-1 <= L-1)
         y[..., -2, -1] = 7.0; y[..., 0, -1] = -3.0
+        y[..., 2, -2] = 4.0; y[..., 0, -3] = 2.0     # and the two wavenumbers below (clip_wavenumbers with n = 2, 3)
         return y * mask
     if kind == 'const':
         y = np.zeros_like(x); y[..., 0, 0] = 5.0; return y
